@@ -143,12 +143,20 @@ TIES = {
                         "Entry.Size,Entry.setEntryHeaderBuf,Entry.Encode,Entry.IsZero,Entry.GetCrc,readMetaData,"
                         "BPTreeRootIdx.Size,BPTreeRootIdx.Encode,BPTreeRootIdx.GetCrc,BPTreeRootIdx.IsZero,"
                         "BucketMeta.Size,BucketMeta.Encode,BucketMeta.GetCrc,IsExpired,DB.isFilterEntry,getNewKey,compare"]),
+    "tx": dict(dir=".", gen="generated/GoTx.v", chain=["gosem/GoTxFacts.v"], deps=["list", "set"],
+               args=["-module", "GoTx", "-skipfiles", "verif_on.go,verif_dump.go",
+                     "-imports", "github.com/xujiajun/nutsdb/ds/list=%s/generated/GoList.json,github.com/xujiajun/nutsdb/ds/set=%s/generated/GoSet.json" % (COQ, COQ),
+                     "-only", "Tx.checkTxIsClosed,Tx.put,Tx.Put,Tx.PutWithTimestamp,Tx.Delete,Tx.push,Tx.RPeek,Tx.RPop,Tx.RPush,Tx.LPush,Tx.LPeek,"
+                     "Tx.LPop,Tx.LSize,Tx.LRange,Tx.LRem,Tx.LSet,Tx.LTrim,Tx.sPut,Tx.SAdd,Tx.SRem,Tx.sMove,Tx.SMoveByOneBucket,Tx.SMoveByTwoBuckets,"
+                     "Tx.SAreMembers,Tx.SCard,Tx.SDiffByOneBucket,Tx.SDiffByTwoBuckets,Tx.SHasKey,Tx.SIsMember,Tx.SMembers,Tx.SPop,"
+                     "Tx.SUnionByOneBucket,Tx.SUnionByTwoBuckets"]),
 }
 # which ties a property depends on, and its code-level property file
-TIES_FOR = {"C05": ["list"], "C20": ["list"], "C06": ["set"], "C21": ["codec"], "C15": ["codec"], "C01": ["codec"], "C04": ["codec"]}
+TIES_FOR = {"C05": ["list"], "C20": ["list"], "C06": ["set"], "C21": ["codec"], "C15": ["codec"], "C01": ["codec"], "C04": ["codec"],
+            "C12": ["tx"], "C13": ["tx"]}
 CODE_PROPS = {"C05": "properties_code/C05_code.v", "C20": "properties_code/C05_code.v", "C06": "properties_code/C06_code.v",
               "C21": "properties_code/C21_code.v", "C15": "properties_code/C15_code.v", "C01": "properties_code/C01_code.v",
-              "C04": "properties_code/C04_code.v"}
+              "C04": "properties_code/C04_code.v", "C12": "properties_code/C13_code.v", "C13": "properties_code/C13_code.v"}
 
 
 def build_translator():
@@ -185,6 +193,13 @@ def translation_tie(name):
     import fcntl
     tie = TIES[name]
     res = dict(name=name, ok=False, stage="", file="", output="", functions=[], skipped=[], regenerated=False)
+    dep_newest = 0
+    for d in tie.get("deps", []):
+        rd = translation_tie(d)
+        if not rd["ok"]:
+            res.update(stage="dependency tie '%s': %s" % (d, rd["stage"]), file=rd["file"], output=rd["output"])
+            return res
+        dep_newest = max(dep_newest, rd.get("newest", 0))
     lock = open(os.path.join(COQ, ".tie.lock"), "w")
     fcntl.flock(lock, fcntl.LOCK_EX)
     try:
@@ -217,6 +232,7 @@ def translation_tie(name):
         m = re.search(r"\(\* not translated:\n(.*?)\*\)", new, re.S)
         res["skipped"] = [l.strip() for l in (m.group(1) if m else "").split("\n") if l.strip()]
         newest = max([os.path.getmtime(os.path.join(COQ, "theories", f)) for f in os.listdir(os.path.join(COQ, "theories")) if f.endswith(".vo")] or [0])
+        newest = max(newest, dep_newest)
         for rel in ["gosem/GoSem.v", tie["gen"]] + tie["chain"]:
             ok, out, mt = _coqc_tie(rel, newest)
             if not ok:
